@@ -58,7 +58,9 @@ Inductive nkind :=
 | NSentinel (ty : Z)                          (* SentinelNode: informative, serialized as nothing *)
 | NFunc (l exit : Z)                          (* FuncNode (Compiler): acts as the label l of the function; exit = its exit label *)
 | NFuncEnd (l : Z)                            (* the kFuncEnd sentinel of function l (its identity is the function) *)
-| NFuncRet.                                   (* FuncRetNode (Compiler): an abstract instruction node without operands *)
+| NFuncRet                                    (* FuncRetNode (Compiler): an abstract instruction node without operands *)
+| NJump (id opts exsig exid : Z) (op : operand) (ann : Z)     (* JumpNode: an instruction with one operand and a jump annotation id (-1 = none) *)
+| NInvoke (id opts exsig exid : Z) (op : operand).            (* InvokeNode (void() signature): the call instruction with its target *)
 
 Record node := mkNode { n_kind : nkind; n_comment : option bytes }.
 
@@ -102,24 +104,28 @@ Record bstate := mkB {
   dirty : bool;                         (* _dirty_section_links *)
   nlabels : Z; nsections : Z; regsize : Z;
   p_opts : Z; p_exsig : Z; p_exid : Z; p_comment : option bytes;    (* one-shot emitter state *)
-  cur_func : option Z                   (* BaseCompiler::_func: the function being generated (its label id) *)
+  cur_func : option Z;                  (* BaseCompiler::_func: the function being generated (its label id) *)
+  lpool : option (Z * bytes);           (* BaseCompiler::_const_pools[kLocal]: label and contents of the pool node (not yet in the list) *)
+  gpool : option (Z * bytes)            (* BaseCompiler::_const_pools[kGlobal] *)
 }.
 
 Definition init_state (rs : Z) : bstate :=
-  mkB [sec_node 0] (Some 0%nat) [] [] false 0 1 rs 0 0 0 None None.
+  mkB [sec_node 0] (Some 0%nat) [] [] false 0 1 rs 0 0 0 None None None None.
 
 Definition with_list (b : bstate) (a : list node) (c : option nat) (d : bool) : bstate :=
-  mkB a c (pool b) (links b) d (nlabels b) (nsections b) (regsize b) (p_opts b) (p_exsig b) (p_exid b) (p_comment b) (cur_func b).
+  mkB a c (pool b) (links b) d (nlabels b) (nsections b) (regsize b) (p_opts b) (p_exsig b) (p_exid b) (p_comment b) (cur_func b) (lpool b) (gpool b).
 Definition with_pool (b : bstate) (p : list node) : bstate :=
-  mkB (active b) (cursor b) p (links b) (dirty b) (nlabels b) (nsections b) (regsize b) (p_opts b) (p_exsig b) (p_exid b) (p_comment b) (cur_func b).
+  mkB (active b) (cursor b) p (links b) (dirty b) (nlabels b) (nsections b) (regsize b) (p_opts b) (p_exsig b) (p_exid b) (p_comment b) (cur_func b) (lpool b) (gpool b).
 Definition with_links (b : bstate) (l : list (Z * option Z)) (d : bool) : bstate :=
-  mkB (active b) (cursor b) (pool b) l d (nlabels b) (nsections b) (regsize b) (p_opts b) (p_exsig b) (p_exid b) (p_comment b) (cur_func b).
+  mkB (active b) (cursor b) (pool b) l d (nlabels b) (nsections b) (regsize b) (p_opts b) (p_exsig b) (p_exid b) (p_comment b) (cur_func b) (lpool b) (gpool b).
 Definition with_pend (b : bstate) (o s i : Z) (c : option bytes) : bstate :=
-  mkB (active b) (cursor b) (pool b) (links b) (dirty b) (nlabels b) (nsections b) (regsize b) o s i c (cur_func b).
+  mkB (active b) (cursor b) (pool b) (links b) (dirty b) (nlabels b) (nsections b) (regsize b) o s i c (cur_func b) (lpool b) (gpool b).
 Definition with_func (b : bstate) (f : option Z) : bstate :=
-  mkB (active b) (cursor b) (pool b) (links b) (dirty b) (nlabels b) (nsections b) (regsize b) (p_opts b) (p_exsig b) (p_exid b) (p_comment b) f.
+  mkB (active b) (cursor b) (pool b) (links b) (dirty b) (nlabels b) (nsections b) (regsize b) (p_opts b) (p_exsig b) (p_exid b) (p_comment b) f (lpool b) (gpool b).
+Definition with_pools (b : bstate) (lp gp : option (Z * bytes)) : bstate :=
+  mkB (active b) (cursor b) (pool b) (links b) (dirty b) (nlabels b) (nsections b) (regsize b) (p_opts b) (p_exsig b) (p_exid b) (p_comment b) (cur_func b) lp gp.
 Definition with_counts (b : bstate) (nl ns : Z) : bstate :=
-  mkB (active b) (cursor b) (pool b) (links b) (dirty b) nl ns (regsize b) (p_opts b) (p_exsig b) (p_exid b) (p_comment b) (cur_func b).
+  mkB (active b) (cursor b) (pool b) (links b) (dirty b) nl ns (regsize b) (p_opts b) (p_exsig b) (p_exid b) (p_comment b) (cur_func b) (lpool b) (gpool b).
 
 (* BaseBuilder::add_node: insert after the cursor (at the front when the cursor is null), cursor := node *)
 Definition cursor_pos (c : option nat) : nat := match c with None => 0%nat | Some i => S i end.
@@ -221,6 +227,23 @@ Definition do_embed_array (ty cnt rep : Z) (d : bytes) (b : bstate) : bstate * Z
 
 Definition valid_label_size (sz : Z) : bool := (sz =? 0) || (sz =? 1) || (sz =? 2) || (sz =? 4) || (sz =? 8).
 
+(* ConstPool::add for constants of ONE size (8 bytes): a constant already in the pool is shared, a new one is appended *)
+Fixpoint list_eqb (a b : bytes) : bool :=
+  match a, b with
+  | [], [] => true
+  | x :: a', y :: b' => (x =? y) && list_eqb a' b'
+  | _, _ => false
+  end.
+Fixpoint chunk_in (c d : bytes) (fuel : nat) : bool :=
+  match fuel with
+  | O => false
+  | S f => match d with
+           | [] => false
+           | _ => if list_eqb c (firstn 8 d) then true else chunk_in c (skipn 8 d) f
+           end
+  end.
+Definition pool_add (c d : bytes) : bytes := if chunk_in c d (length d) then d else d ++ c.
+
 (* ------------------------------------------------------------------ commands *)
 Inductive cmd :=
 | CNewLabel | CNewSection
@@ -233,6 +256,10 @@ Inductive cmd :=
 | CConstPoolNode (l align : Z) (d : bytes)     (* new_const_pool_node + ConstPool::add + add_node; l = the label id it registers *)
 | CSentinel (ty : Z)                          (* new_node_t<SentinelNode> + add_node *)
 | CFunc | CFuncRet | CEndFunc                 (* BaseCompiler::add_func_node(void()) / add_func_ret_node(none, none) / end_func *)
+| CNewConst (scope : Z) (d : bytes)           (* BaseCompiler::_new_const(scope, one 8-byte constant) *)
+| CJumpAnn                                    (* new_jump_annotation (+ add_label_id): no effect on the node list *)
+| CJump (id : Z) (op : operand) (ann : Z)     (* emit_annotated_jump *)
+| CInvoke (id : Z) (op : operand)             (* add_invoke_node(inst, target, void()) *)
 | CSetCursor (i : option nat) | CRemove (i : nat) | CRemoveRange (i j : nat) | CRemovePool (k : nat)
 | CAddAfter (k i : nat) | CAddBefore (k i : nat) | CAddNode (k : nat) | CUpdateLinks.
 
@@ -277,8 +304,34 @@ Definition step (b : bstate) (c : cmd) : bstate * Z :=
       let b0 := with_pend b 0 0 0 None in                      (* reset_state() comes first *)
       match cur_func b with
       | None => (b0, kInvalidState)
-      | Some fl => let b1 := with_func b0 None in (with_list b1 (active b1) (find_index (is_func_end fl) (active b1)) (dirty b1), kOk)
+      | Some fl =>
+          let b1 := with_func b0 None in
+          (* the local constant pool (if any) is linked in right before the end sentinel: set_cursor(end->prev()); add_node(pool) *)
+          let b2 := match lpool b1 with
+                    | Some (l, d) =>
+                        let c := match find_index (is_func_end fl) (active b1) with Some e => pred_opt e | None => None end in
+                        add_node (mkNode (NConstPool l 8 d) None) (with_list (with_pools b1 None (gpool b1)) (active b1) c (dirty b1))
+                    | None => b1
+                    end in
+          (with_list b2 (active b2) (find_index (is_func_end fl) (active b2)) (dirty b2), kOk)
       end
+  | CNewConst scope d =>
+      (* the pool node of the scope is created on first use (registers a label); the constant is added to it; nothing is linked in *)
+      if scope =? 0 then
+        match lpool b with
+        | Some (l, old) => (with_pools b (Some (l, pool_add d old)) (gpool b), kOk)
+        | None => (with_pools (with_counts b (nlabels b + 1) (nsections b)) (Some (nlabels b, d)) (gpool b), kOk)
+        end
+      else
+        match gpool b with
+        | Some (l, old) => (with_pools b (lpool b) (Some (l, pool_add d old)), kOk)
+        | None => (with_pools (with_counts b (nlabels b + 1) (nsections b)) (lpool b) (Some (nlabels b, d)), kOk)
+        end
+  | CJumpAnn => (b, kOk)
+  | CJump id op ann =>            (* _grab_state: options | forced, extra register, comment; all consumed *)
+      (add_node (mkNode (NJump id (p_opts b) (p_exsig b) (p_exid b) op ann) (dup_comment (p_comment b))) (with_pend b 0 0 0 None), kOk)
+  | CInvoke id op =>
+      (add_node (mkNode (NInvoke id (p_opts b) (p_exsig b) (p_exid b) op) (dup_comment (p_comment b))) (with_pend b 0 0 0 None), kOk)
   | CSection s => do_section s b
   | CSetCursor None => (with_list b (active b) None (dirty b), kOk)
   | CSetCursor (Some i) => if in_range i (active b) then (with_list b (active b) (Some i) (dirty b), kOk) else (b, kBadIndex)
@@ -338,6 +391,8 @@ Definition replay_node (n : node) : list cmd :=
   | NFunc l _ => [CBind l]                             (* acts as label: dst->bind(node->label()) *)
   | NFuncEnd _ => []
   | NFuncRet => [CSetOptions 0; CSetExtra 0 0; CEmit kIdAbstract op_none op_none op_none op_none op_none op_none]   (* acts as instruction *)
+  | NJump id opts es ei op _ => [CSetOptions opts; CSetExtra es ei; CEmit id op op_none op_none op_none op_none op_none]
+  | NInvoke id opts es ei op => [CSetOptions opts; CSetExtra es ei; CEmit id op op_none op_none op_none op_none op_none]
   end.
 
 Definition replay (b : bstate) : list cmd := flat_map replay_node (active b).
@@ -407,6 +462,8 @@ Definition node_ecalls (n : node) : list ecall :=
   | NFunc l _ => [EBind l]
   | NFuncEnd _ => []
   | NFuncRet => [EInst kIdAbstract 0 0 0 (canon_ops op_none op_none op_none op_none op_none op_none) (dup_comment (n_comment n))]
+  | NJump id opts es ei op _ => [EInst id (clear_reserved opts) es ei (canon_ops op op_none op_none op_none op_none op_none) (dup_comment (n_comment n))]
+  | NInvoke id opts es ei op => [EInst id (clear_reserved opts) es ei (canon_ops op op_none op_none op_none op_none op_none) (dup_comment (n_comment n))]
   end.
 
 (* per-section projection of an effective-call sequence: the calls issued while section s is current (ESection itself excluded) *)
@@ -438,7 +495,7 @@ Fixpoint all_ok (b : bstate) (cs : list cmd) : bool :=
 Definition is_emitter_call (c : cmd) : bool :=
   match c with
   | CSetCursor _ | CRemove _ | CRemoveRange _ _ | CRemovePool _ | CAddAfter _ _ | CAddBefore _ _ | CAddNode _ | CUpdateLinks => false
-  | CFunc | CFuncRet | CEndFunc => false   (* Compiler function nodes: what they assemble to is decided by the register-allocation pass *)
+  | CFunc | CFuncRet | CEndFunc | CNewConst _ _ | CJumpAnn | CJump _ _ _ | CInvoke _ _ => false   (* Compiler nodes: what they assemble to is decided by the register-allocation pass *)
   | CEmitRejected _ => false      (* sequences with refused instructions are outside the recording theorems (see rejected_emit_resets) *)
   | _ => true
   end.
